@@ -217,12 +217,27 @@ func c09CheckValue(w *World, g *ref.Group, got, want []byte, oracle, what string
 	}
 }
 
+// exponentObj returns the *big.Int the caller hands to the library: a fresh one, or (Repeat)
+// the world's long-lived one set to the new value, as a caller reusing its variable would.
+func exponentObj(w *World, s *Step) *big.Int {
+	if s.Repeat == 0 {
+		return new(big.Int).SetBytes(s.X)
+	}
+	x, _ := w.ext["c09_x"].(*big.Int)
+	if x == nil {
+		x = new(big.Int)
+		w.ext["c09_x"] = x
+	}
+	w.stats.inc("probe_exponent_object_reused")
+	return x.SetBytes(s.X)
+}
+
 func opDHPub(w *World, s *Step) (string, string) {
 	g, lib := ref.GroupByID(uint16(s.Group)), libDH(s.Group)
 	if g == nil || lib == nil {
 		return "nogroup", "nogroup"
 	}
-	x := new(big.Int).SetBytes(s.X)
+	x := exponentObj(w, s)
 	res := &callResult{}
 	var got []byte
 	guard(res, func() { got = lib.GetPublicValue(x) })
@@ -244,7 +259,7 @@ func opDHShared(w *World, s *Step) (string, string) {
 	if g == nil || lib == nil {
 		return "nogroup", "nogroup"
 	}
-	x, y := new(big.Int).SetBytes(s.X), new(big.Int).SetBytes(s.Y)
+	x, y := exponentObj(w, s), new(big.Int).SetBytes(s.Y)
 	res := &callResult{}
 	var got []byte
 	guard(res, func() { got = lib.GetSharedKey(x, y) })
@@ -497,7 +512,7 @@ func genDHRand(r *Rng) *RandScript {
 	case 3: // rand.Int rejection: all-0xFF draws equal the maximum
 		sc.PatReads, sc.PatByte = r.Range(1, 3), 0xff
 	case 4: // lower-bound rejection: all-zero draws
-		sc.PatReads, sc.PatByte = r.Range(1, 3), 0x00
+		sc.PatReads, sc.PatByte = Pick(r, 1, 2, 3, 4, 5, 8, 12), 0x00
 	case 5: // scripted boundary exponents
 		v := Pick(r, two128, new(big.Int).Add(two128, big.NewInt(1)), new(big.Int).Sub(two128, big.NewInt(1)), new(big.Int).Sub(two2048, big.NewInt(2)))
 		b := make([]byte, 256)
@@ -524,9 +539,9 @@ func genC09(r *Rng, idx int, tier string) *Scenario {
 		case 3:
 			sc.Steps = append(sc.Steps, Step{Op: "dh_gen_failsweep", Rand: &RandScript{Seed: r.U64(), Chunk: Pick(r, 0, 1, 7, 64, 255)}})
 		case 4, 5, 6:
-			sc.Steps = append(sc.Steps, Step{Op: "dh_pub", Group: gid, X: genExponentBytes(r, g)})
+			sc.Steps = append(sc.Steps, Step{Op: "dh_pub", Group: gid, X: genExponentBytes(r, g), Repeat: r.Intn(2)})
 		case 7, 8, 9, 10:
-			sc.Steps = append(sc.Steps, Step{Op: "dh_shared", Group: gid, X: genExponentBytes(r, g), Y: genPeerBytes(r, g)})
+			sc.Steps = append(sc.Steps, Step{Op: "dh_shared", Group: gid, X: genExponentBytes(r, g), Y: genPeerBytes(r, g), Repeat: r.Intn(2)})
 		case 11, 12:
 			sc.Steps = append(sc.Steps, Step{Op: "dh_agree", Group: gid, Rand: genDHRand(r), Rand2: genDHRand(r)})
 		case 13, 14:
